@@ -261,6 +261,7 @@ type runOracle struct {
 	lastNext map[int]int // per stage: highest merged segment so far
 	seen     map[string]bool
 	failed   map[string]bool
+	sink     map[string]bool // classes seen by the whole exploration (reported once per configuration)
 	nJobs    int
 }
 
@@ -279,6 +280,12 @@ func (o *runOracle) fail(class, desc string) {
 		return
 	}
 	o.failed[class] = true
+	if o.sink != nil {
+		if o.sink[class] {
+			return
+		}
+		o.sink[class] = true
+	}
 	out.Fail(class, desc, o.caseUpToNow())
 }
 
@@ -317,11 +324,12 @@ func (o *runOracle) after(kind string) {
 	// merges: each segment once, in block order per stage
 	if strings.HasPrefix(kind, "mergeFinished") {
 		u := w.mergeUnits[len(w.mergeUnits)-1]
-		prev, ok := o.lastNext[u.Stage]
-		if ok && u.Segment <= prev {
-			o.fail("C05/merge-order", fmt.Sprintf("stage %d: segment %d merged after segment %d", u.Stage, u.Segment, prev))
+		if w.mergeWasCompleted {
+			o.fail("C05/merge-twice", fmt.Sprintf("stage %d: a merge of segment %d finished although the segment was already merged (Completed)", u.Stage, u.Segment))
 		}
-		o.lastNext[u.Stage] = u.Segment
+		if !w.mergeWasCompleted && u.Segment != w.mergeNextBefore {
+			o.fail("C05/merge-out-of-order", fmt.Sprintf("stage %d: a merge of segment %d finished while the stage's next segment to merge is %d", u.Stage, u.Segment, w.mergeNextBefore))
+		}
 	}
 }
 
@@ -373,22 +381,6 @@ func (o *runOracle) finish() {
 				r := seg.Range(i)
 				if r != nil && !w.outputExists(r.StartBlock, r.ExclusiveEndBlock) {
 					o.fail("C05/final/output-missing", fmt.Sprintf("quit without the output file %d-%d", r.StartBlock, r.ExclusiveEndBlock))
-				}
-			}
-		}
-		n := st.VerifStageCount()
-		matrix := strings.Split(strings.TrimSuffix(st.StatesString(), "\n"), "\n")
-		for pos := 0; pos < n && pos < len(matrix); pos++ {
-			for off := range matrix[pos][2:] {
-				us := st.VerifUnitState(stage.Unit{Segment: off + segOffset(w), Stage: pos})
-				bad := false
-				if matrix[pos][0] == 'S' {
-					bad = us != stage.UnitCompleted && us != stage.UnitNoOp
-				} else if off+segOffset(w) <= lastReadSegment(w) {
-					bad = us != stage.UnitCompleted && us != stage.UnitNoOp && us != stage.UnitPartialPresent
-				}
-				if bad {
-					o.fail("C05/final/unit-state", fmt.Sprintf("unit (segment %d, stage %d) is %s at quit; matrix %s", off+segOffset(w), pos, us, strings.Join(matrix, "/")))
 				}
 			}
 		}
@@ -483,6 +475,41 @@ func candidateFiles(g genCfg) []fileSeed {
 					out = append(out, fileSeed{'O', 0, 0, max(init, e-k), e})
 				}
 			}
+		}
+	}
+	return out
+}
+
+// cleanFiles: what completed (or cleanly interrupted) earlier requests leave: no partial; per store every
+// boundary snapshot up to some block; lower stages at least as far as upper stages; any outputs
+func cleanFiles(r *common.Rng, g genCfg) []fileSeed {
+	cand := candidateFiles(g)
+	graph, _, _, ok := planOf(g)
+	if !ok {
+		return nil
+	}
+	stages, kinds := graphStages(graph)
+	var out []fileSeed
+	upto := g.Hand + g.K
+	if r.Chance(1, 3) {
+		upto = 0
+	}
+	for j := range stages {
+		if kinds[j] != 'S' {
+			continue
+		}
+		if upto > 0 {
+			upto = uint64(r.Intn(int(upto/g.K)+1)) * g.K
+		}
+		for _, f := range cand {
+			if f.Kind == 'F' && f.Stage == j && f.End <= upto {
+				out = append(out, f)
+			}
+		}
+	}
+	for _, f := range cand {
+		if f.Kind == 'O' && r.Chance(1, 3) {
+			out = append(out, f)
 		}
 	}
 	return out
@@ -610,6 +637,12 @@ func emit(line string, nontrivial bool) {
 }
 
 // ---------------------------------------------------------------- exhaustive interleavings
+//
+// Exploration order (the same in lean/Driver/C05.lean `choicesOf`): commands that answer at once (batch,
+// schedule-next-job, merge-not-ready, all-stores, download-segment, walker-completed, shutdown, quit) are executed
+// first, oldest first; the explored nondeterminism is which LONG-RUNNING command answers next: a job, a merge, a
+// file download, a timer.  The ramp-up clock is part of the explored state: it may elapse at the start or at any
+// timer event.  Visited set on the full state (bag as a multiset of command kinds).
 
 type explorer struct {
 	g       genCfg
@@ -619,121 +652,152 @@ type explorer struct {
 	visited map[string]int // state key -> id
 	edges   [][]edge       // id -> outgoing
 	term    []string       // id -> terminal kind ("" if not terminal)
+	classes map[string]bool
 	leaves  int
 	budget  int
 	trunc   bool
+	initCls string
 }
 type edge struct {
 	to   int
 	poll bool // an edge that can repeat without progress: the walker found no file, or the ramp-up clock has not elapsed
 }
 
-func (e *explorer) replay(path []choice) *world {
-	w := newWorld(e.g, e.W, e.seeds, nextDir())
-	for _, c := range path {
-		w.step(c.Idx, c.Elapsed)
-	}
-	return w
+// a runner = a world + the hash/oracle bookkeeping of the path that led to it
+type runner struct {
+	w    *world
+	o    *runOracle
+	h    uint64
+	last string
 }
 
-// key: everything the future depends on; the bag as a multiset
-func stateKey(w *world) string {
+func (e *explorer) newRunner(path []choice) *runner {
+	w := newWorld(e.g, e.W, e.seeds, nextDir())
+	r := &runner{w: w}
 	if w.sched == nil {
-		return "init-failed"
+		return r
 	}
+	r.last = w.record()
+	r.h = fnvAdd(14695981039346656037, r.last+"\n")
+	r.o = newRunOracle(w, e.prefix+" sched=-")
+	r.o.sink = e.classes
+	for _, c := range path {
+		r.step(c)
+	}
+	return r
+}
+
+func (r *runner) step(c choice) string {
+	r.o.before(c)
+	kind := r.w.step(c.Idx, c.Elapsed)
+	r.last = r.w.record()
+	r.h = fnvAdd(r.h, kind+" "+r.last+"\n")
+	r.o.after(kind)
+	return kind
+}
+
+func isImmediate(tag string) bool {
+	return tag != "J" && tag != "G" && tag != "L" && tag != "T"
+}
+
+func stateKey(w *world, clock bool) string {
 	rec := w.record()
 	i := strings.Index(rec, " bag=")
 	j := strings.Index(rec, " full=")
 	tags := []byte(rec[i+5 : j])
 	sort.Slice(tags, func(a, b int) bool { return tags[a] < tags[b] })
-	_, parts, _ := w.listFiles()
-	return rec[:i] + " bag=" + string(tags) + rec[j:] + " part=" + strings.Join(parts, ",") + " end=" + w.ended
+	k := rec[:i] + " bag=" + string(tags) + rec[j:] + " end=" + w.ended
+	if clock {
+		k += " clk"
+	}
+	return k
 }
 
-func (e *explorer) choices(w *world) []choice {
-	// partial-order reduction: unwrapping a batch commutes with everything and only makes more commands
-	// available, so it is done first (the random tier also delays unwrapping)
+func exploreChoices(w *world, clock bool) []choice {
 	for i, c := range w.bag {
-		if cmdTag(c) == "B" {
-			return []choice{{i, false}}
+		if isImmediate(cmdTag(c)) {
+			return []choice{{i, clock}}
 		}
 	}
 	var cs []choice
-	seenTag := map[string]bool{}
-	rampup := strings.HasSuffix(w.sched.WorkerPool.VerifStates(), "+r")
 	for i, c := range w.bag {
-		t := cmdTag(c)
-		// identical parameterless commands are interchangeable: explore the first of each kind only
-		if t == "N" || t == "D" || t == "A" || t == "T" || t == "K" || t == "Q" || t == "X" {
-			if seenTag[t] {
-				continue
-			}
-			seenTag[t] = true
-		}
-		if (t == "N" || t == "T") && rampup {
+		if cmdTag(c) == "T" && !clock {
 			cs = append(cs, choice{i, false}, choice{i, true})
 		} else {
-			cs = append(cs, choice{i, !rampup})
+			cs = append(cs, choice{i, clock})
 		}
 	}
 	return cs
 }
 
-func (e *explorer) explore(w *world, path []choice) int {
-	key := stateKey(w)
+func (e *explorer) explore(r *runner, clock bool, path []choice) int {
+	w := r.w
+	// unwrap every batch first (a batch hides its content from the state key)
+	for w.ended == "" {
+		bi := -1
+		for i, c := range w.bag {
+			if cmdTag(c) == "B" {
+				bi = i
+				break
+			}
+		}
+		if bi < 0 {
+			break
+		}
+		c := choice{bi, clock}
+		r.step(c)
+		path = append(append([]choice{}, path...), c)
+	}
+	key := stateKey(w, clock)
 	if id, ok := e.visited[key]; ok {
-		e.leaf(path)
-		w.close()
+		e.leaf(r, path)
 		return id
 	}
 	id := len(e.edges)
 	e.visited[key] = id
 	e.edges = append(e.edges, nil)
 	e.term = append(e.term, "")
-	if w.ended != "" || len(w.bag) == 0 || w.sched == nil {
+	if w.ended != "" || len(w.bag) == 0 {
 		e.term[id] = endString(w)
-		e.leaf(path)
-		w.close()
+		e.leaf(r, path)
 		return id
 	}
 	if len(e.visited) > e.budget {
 		e.trunc = true
-		e.leaf(path)
-		w.close()
+		e.leaf(r, path)
 		return id
 	}
-	cs := e.choices(w)
+	cs := exploreChoices(w, clock)
 	for n, c := range cs {
-		var w2 *world
-		if n == len(cs)-1 {
-			w2 = w
-		} else {
-			w2 = e.replay(path)
+		r2 := r
+		if n > 0 {
+			r2 = e.newRunner(path) // the real scheduler cannot be cloned: re-execute the prefix
 		}
-		kind := w2.step(c.Idx, c.Elapsed)
+		kind := r2.step(c)
 		p2 := append(append([]choice{}, path...), c)
-		to := e.explore(w2, p2)
-		poll := strings.HasPrefix(kind, "fileNotPresent") || (strings.Contains(kind, "schedNext") && !c.Elapsed && strings.HasSuffix(kind, ">1") && strings.HasSuffix(w2.sched.WorkerPool.VerifStates(), "+r"))
+		poll := strings.HasPrefix(kind, "fileNotPresent") ||
+			((strings.HasPrefix(kind, "schedNext>") || strings.HasPrefix(kind, "tickschedNext>")) && !c.Elapsed && strings.HasSuffix(kind, ">1") &&
+				r2.w.ended == "" && strings.HasSuffix(r2.w.sched.WorkerPool.VerifStates(), "+r"))
+		to := e.explore(r2, clock || c.Elapsed, p2)
 		e.edges[id] = append(e.edges[id], edge{to, poll})
-	}
-	if len(cs) > 1 {
-		w.close()
 	}
 	return id
 }
 
-func (e *explorer) leaf(path []choice) {
+// leaf: the path cannot be extended (terminal state, state already visited, budget): one RUN case for the
+// trace-level correspondence, and the end-of-run predicates
+func (e *explorer) leaf(r *runner, path []choice) {
 	e.leaves++
-	emit(e.prefix+" sched="+schedString(path)+" v=0", true)
+	r.o.finish()
+	line := e.prefix + " sched=" + schedString(path) + " v=0"
+	out.Case(line, answerOf(r.w, r.h, r.last, nil), len(path) > 0)
+	out.Count("end:" + endString(r.w))
+	r.w.close()
 }
 
-// graph oracles: from every state a quit state is reachable; no cycle without a polling edge
+// graph predicates: from every state a quit state is reachable; no cycle without a polling edge
 func (e *explorer) graphOracle() {
 	n := len(e.edges)
-	if e.trunc {
-		out.Count("explore:truncated")
-		return
-	}
 	good := make([]bool, n)
 	rev := make([][]int, n)
 	for i, es := range e.edges {
@@ -760,11 +824,11 @@ func (e *explorer) graphOracle() {
 	}
 	for i := range good {
 		if !good[i] && e.term[i] == "" {
-			out.Fail("C05/no-termination/quit-unreachable", "a reachable state from which the scheduler can never quit", e.prefix+" sched=- v=0")
+			e.classes["C05/no-termination/quit-unreachable"] = true
+			out.Fail("C05/no-termination/quit-unreachable", "a reachable state from which the scheduler can never quit", e.exploreLine())
 			break
 		}
 	}
-	// cycle detection on non-poll edges (iterative DFS, colours)
 	col := make([]byte, n)
 	type fr struct{ v, i int }
 	for s := 0; s < n; s++ {
@@ -782,7 +846,8 @@ func (e *explorer) graphOracle() {
 					continue
 				}
 				if col[ed.to] == 1 {
-					out.Fail("C05/no-termination/cycle", "a cycle of steps none of which is a poll (walker file not present / ramp-up not elapsed)", e.prefix+" sched=- v=0")
+					e.classes["C05/no-termination/cycle-without-poll"] = true
+					out.Fail("C05/no-termination/cycle-without-poll", "a cycle of steps none of which is a poll (walker file not present / ramp-up not elapsed)", e.exploreLine())
 					return
 				}
 				if col[ed.to] == 0 {
@@ -797,16 +862,53 @@ func (e *explorer) graphOracle() {
 	}
 }
 
+func (e *explorer) exploreLine() string {
+	return "EXPLORE" + strings.TrimPrefix(e.prefix, "RUN") + fmt.Sprintf(" budget=%d v=0", e.budget)
+}
+
+// exhaustive explores every order of the long-running events of one configuration on the REAL code and emits,
+// besides one RUN case per maximal path, an EXPLORE case: number of states and classes of violated predicates,
+// which the model's own explorer must reproduce.
 func exhaustive(g genCfg, W int, seeds []fileSeed, budget int) {
 	cfg, ok := cfgTokens(g, W)
 	if !ok {
 		out.Count("cfg:no-parallel")
 		return
 	}
-	e := &explorer{g: g, W: W, seeds: seeds, prefix: "RUN " + cfg + " fix=0 files=" + seedsString(seeds), visited: map[string]int{}, budget: budget}
-	w := e.replay(nil)
-	e.explore(w, nil)
-	e.graphOracle()
+	e := &explorer{g: g, W: W, seeds: seeds, prefix: "RUN " + cfg + " fix=0 files=" + seedsString(seeds),
+		visited: map[string]int{}, classes: map[string]bool{}, budget: budget}
+	r := e.newRunner(nil)
+	var ans string
+	if r.w.sched == nil {
+		cls := "C05/init-failed"
+		if r.w.ended == "panic:init" {
+			cls = panicClass(r.w.panicMsg) + "/at-init"
+			out.Fail(cls, "BuildParallelProcessor panicked: "+r.w.panicMsg, e.prefix+" sched=- v=0")
+		}
+		r.w.close()
+		ans = "states=0 trunc=false viol=" + cls
+	} else {
+		e.explore(r, false, nil)
+		if W > 1 {
+			e.explore(e.newRunner(nil), true, nil)
+		}
+		if !e.trunc {
+			e.graphOracle()
+		} else {
+			out.Count("explore:truncated")
+		}
+		var cl []string
+		for c := range e.classes {
+			cl = append(cl, c)
+		}
+		sort.Strings(cl)
+		v := "-"
+		if len(cl) > 0 {
+			v = strings.Join(cl, ",")
+		}
+		ans = fmt.Sprintf("states=%d trunc=%v viol=%s", len(e.edges), e.trunc, v)
+	}
+	out.Case(e.exploreLine(), ans, true)
 	out.Count("explore:configs")
 	out.Dist["explore:states"] += len(e.visited)
 	out.Dist["explore:leaves"] += e.leaves
@@ -835,6 +937,25 @@ func main() {
 	}
 	rng := common.NewRng(o.Seed)
 
+	if strings.HasPrefix(o.Extra, "genexplore=") { // experiment: print EXPLORE lines for the model's own explorer
+		n, _ := strconv.Atoi(strings.Split(strings.TrimPrefix(o.Extra, "genexplore="), ",")[0])
+		for i := 0; i < n; i++ {
+			r := rng.Fork()
+			g := genConfig(r, 3+i%2, 3)
+			seeds := genFiles(r, g)
+			if strings.Contains(o.Extra, "clean") {
+				seeds = cleanFiles(r, g)
+			}
+			W := r.Range(1, 3)
+			if cfg, ok := cfgTokens(g, W); ok {
+				for _, fix := range []string{"0", "1"} {
+					out.Case("EXPLORE "+cfg+" fix="+fix+" files="+seedsString(seeds)+" budget=150000 v=1", "-", false)
+				}
+			}
+		}
+		return
+	}
+
 	// corpus: F15's graph (DESIGN §9) and the repository's own test grid
 	corpus := []string{"p:10:5/25:25:25:70:70", "p:10:5/5:5:5:50:50", "p:10:5/5:5:30:90:90", "d:10:0/0:0:35:30:40", "p:10:0:0:0:30:30", "p:10:-:0:5:30:30"}
 	for _, c := range corpus {
@@ -846,9 +967,9 @@ func main() {
 		}
 	}
 
-	nRandom, nExh, budget := 1500, 40, 4000
+	nRandom, nExh, budget := 500, 45, 30000
 	if o.Thorough() {
-		nRandom, nExh, budget = 12000, 600, 60000
+		nRandom, nExh, budget = 6000, 1200, 120000
 	}
 	for _, kv := range strings.Split(o.Extra, ",") { // -extra random=N,exh=M,budget=B (experiments)
 		if p := strings.SplitN(kv, "=", 2); len(p) == 2 {
@@ -863,10 +984,29 @@ func main() {
 			}
 		}
 	}
+	// exhaustive corpus: F15's graph; a store stage whose partial was left by an interrupted request (F19: merged
+	// twice); three store stages + mapper on an empty cache (F19: deadlock); the repository's test grid
+	type exh struct {
+		g     string
+		w     int
+		files string
+	}
+	for _, c := range []exh{
+		{"p:10:5/25:25:25:40:40", 2, "-"},
+		{"p:10:0:0:0:20:20", 1, "P0.0:0-10"},
+		{"p:10:0/0/0:0:6:30:30", 2, "-"},
+		{"p:10:5/5:5:5:30:30", 2, "-"},
+		{"d:10:20/20:20:38:50:50", 1, "P1.0:20-30"},
+	} {
+		exhaustive(parseGen(c.g), c.w, parseSeeds(c.files), 200000)
+	}
 	for n := 0; n < nRandom; n++ {
 		r := rng.Fork()
-		g := genConfig(r, 3, 6)
+		g := genConfig(r, 3+n%3, 6)
 		seeds := genFiles(r, g)
+		if n%3 == 0 {
+			seeds = cleanFiles(r, g)
+		}
 		randomRun(r, g, r.Range(1, 3), seeds, 6000)
 		out.Count(fmt.Sprintf("cfg:stages=%d", len(g.Stores)+1))
 	}
@@ -880,6 +1020,9 @@ func main() {
 		}
 		g := genConfig(r, 3, maxSegs)
 		seeds := genFiles(r, g)
+		if n%3 == 0 {
+			seeds = cleanFiles(r, g)
+		}
 		exhaustive(g, r.Range(1, 3), seeds, budget)
 	}
 }
